@@ -1201,3 +1201,121 @@ class GroupingSetsGen(Gen):
              "group": {"on": 1, "keys": [k.m for k in keys], "aggs": [a.m for a in aggs], "having": TRUE_M, "sets": sets if sets else [[]]},
              "proj": [e.m for e in proj], "distinct": 0, "order": [], "limit": -1, "offset": 0}
         return make_case(cid, self.tables, Q(sql, m, [(n, e.t) for e, n in zip(proj, names)]), tags=[form])
+
+
+# ---------------------------------------------------------------------------------------------
+# Window functions (C26)
+class WindowGen(Gen):
+    def case(self, cid):
+        r = self.rng
+        ncols = r.randint(2, 3)
+        t = self.table("t0", 0, ncols=ncols, nrows=r.randint(0, 6),
+                       types=[r.choice(["int", "int", "dbl", "str", "date"]) for _ in range(ncols)])
+        # unique, non-null tiebreak column
+        ids = list(range(len(t.rows)))
+        r.shuffle(ids)
+        t.cols.append(("u0", "int"))
+        for row, u in zip(t.rows, ids):
+            row.append(u)
+        t.nonnull.add("u0")
+        self.tables = [t]
+        al = self.fresh("x")
+        cols = [Col(al, n, ty, base=True, nullable=(n not in t.nonnull)) for (n, ty) in t.cols]
+        sc = Scope(cols)
+        ucol = sc.ref(0, len(cols) - 1)
+        data = list(range(len(cols) - 1))
+        nwin = r.randint(1, 2)
+        wins, wsql, wtypes = [], [], []
+        for _ in range(nwin):
+            part = [sc.ref(0, i) for i in r.sample(data, r.choice([0, 1, 1]))]
+            nord = r.choice([0, 1, 1, 2])
+            oidx = r.sample(data, min(nord, len(data)))
+            ords = []
+            for i in oidx:
+                desc = r.randint(0, 1)
+                nf = r.choice([None, 0, 1])
+                ords.append((sc.ref(0, i), desc, nf))
+            numeric = [i for i in data if cols[i].t in ("int", "dbl")]
+            fam = r.choice(["rank", "rank", "agg", "agg", "pos", "pos", "value"])
+            if not ords and fam != "agg":
+                fam = "agg"
+            f, a_e, k, dflt, frame, total = None, None, 0, None, {"mode": "default"}, False
+            fsql_frame = ""
+            if fam == "rank":
+                f = r.choice(["rank", "dense_rank", "percent_rank", "cume_dist"])
+                call, rt = f"{f.upper()}()", ("avg_int" if f in ("percent_rank", "cume_dist") else "int")
+            elif fam == "pos":
+                f = r.choice(["row_number", "ntile", "lag", "lead"])
+                total = True
+                if f == "row_number":
+                    call, rt = "ROW_NUMBER()", "int"
+                elif f == "ntile":
+                    k = r.randint(1, 4)
+                    call, rt = f"NTILE({k})", "int"
+                else:
+                    a_e = sc.ref(0, r.choice(data))
+                    k = r.randint(1, 2)
+                    if r.random() < 0.4:
+                        dflt = self.lit_for(a_e.t)
+                        call = f"{f.upper()}({a_e.sql}, {k}, {dflt.sql})"
+                    else:
+                        call = f"{f.upper()}({a_e.sql}, {k})" if r.random() < 0.7 or k != 1 else f"{f.upper()}({a_e.sql})"
+                    rt = a_e.t
+            elif fam == "value":
+                f = r.choice(["first_value", "last_value", "nth_value"])
+                total = True
+                a_e = sc.ref(0, r.choice(data))
+                if f == "nth_value":
+                    k = r.randint(1, 3)
+                    call = f"NTH_VALUE({a_e.sql}, {k})"
+                else:
+                    call = f"{f.upper()}({a_e.sql})"
+                rt = a_e.t
+            else:
+                f = r.choice(["count*", "count", "sum", "min", "max"])
+                if f == "count*":
+                    call, rt = "COUNT(*)", "int"
+                else:
+                    pool = numeric if f == "sum" else data
+                    if not pool:
+                        f, call, rt = "count*", "COUNT(*)", "int"
+                    else:
+                        a_e = sc.ref(0, r.choice(pool))
+                        call, rt = f"{f.upper()}({a_e.sql})", ("int" if f == "count" else a_e.t)
+            # frame
+            if fam in ("agg", "value") and ords and r.random() < 0.6:
+                if r.random() < 0.6:
+                    total = True
+                    lo = r.choice([("up", 0), ("p", 1), ("p", 2), ("cr", 0)])
+                    hi = r.choice([("cr", 0), ("f", 1), ("f", 2), ("uf", 0)])
+                    mode = "rows"
+                else:
+                    lo, hi = r.choice([(("up", 0), ("cr", 0)), (("cr", 0), ("uf", 0)), (("up", 0), ("uf", 0))])
+                    mode = "range"
+                def b(x):
+                    return {"up": "UNBOUNDED PRECEDING", "p": f"{x[1]} PRECEDING", "cr": "CURRENT ROW", "f": f"{x[1]} FOLLOWING", "uf": "UNBOUNDED FOLLOWING"}[x[0]]
+                fsql_frame = f" {mode.upper()} BETWEEN {b(lo)} AND {b(hi)}"
+                frame = {"mode": mode, "lo": {"t": lo[0], "n": lo[1]}, "hi": {"t": hi[0], "n": hi[1]}}
+            if total and ords is not None:
+                ords = ords + [(ucol, 0, None)]
+            over = []
+            if part:
+                over.append("PARTITION BY " + ", ".join(p.sql for p in part))
+            if ords:
+                over.append("ORDER BY " + ", ".join(
+                    f"{e.sql}{' DESC' if d else ''}{'' if nf is None else (' NULLS FIRST' if nf else ' NULLS LAST')}" for (e, d, nf) in ords))
+            wsql.append(f"{call} OVER ({' '.join(over)}{fsql_frame})")
+            wtypes.append(rt)
+            wins.append({"f": f, "a": a_e.m if a_e is not None else TRUE_M, "k": k, "dflt": dflt.m if dflt is not None else {"k": "lit", "v": NULL},
+                         "part": [p.m for p in part], "ord": [{"e": e.m, "desc": d, "nf": (nf if nf is not None else 0)} for (e, d, nf) in ords],
+                         "frame": frame})
+        base = [sc.ref(0, len(cols) - 1)] + [sc.ref(0, i) for i in r.sample(data, r.randint(1, len(data)))]
+        names = [self.fresh("k") for _ in range(len(base) + nwin)]
+        items = [f"{e.sql} AS {n}" for e, n in zip(base, names)] + [f"{w} AS {n}" for w, n in zip(wsql, names[len(base):])]
+        where = self.pred(sc, 0) if r.random() < 0.25 else None
+        sql = "SELECT " + ", ".join(items) + f" FROM {t.name} AS {al}" + (f" WHERE {where.sql}" if where else "")
+        proj = [e.m for e in base] + [{"k": "col", "d": 0, "i": len(cols) + j + 1} for j in range(nwin)]
+        m = {"k": "select", "from": {"k": "table", "name": t.name}, "where": where.m if where else TRUE_M, "group": {"on": 0}, "wins": wins,
+             "proj": proj, "distinct": 0, "order": [], "limit": -1, "offset": 0}
+        return make_case(cid, self.tables, Q(sql, m, [(n, e.t) for e, n in zip(base, names)] + list(zip(names[len(base):], wtypes))),
+                         tags=[w["f"] for w in wins])
